@@ -16,6 +16,7 @@ from vlib.gj import viol, rng_for
 from vlib.ref import group as G
 
 ID = "C09"
+INPUTS_MUST_BE_UNCHANGED = True  # runner post-condition: no call modifies the input object it is given
 LEVEL = "model_checking"
 DESIGN_REF = "DESIGN.md §4 C09"
 RULE = (
